@@ -184,6 +184,34 @@ CHECKS = {
         "note": SPACE_NOTE,
         "technique": "Coq proof on a real-number model + bit-exact float-model correspondence by vm_compute + sampled float/real link",
     },
+    "C11": {
+        "category": "proof",
+        "text": "Exact float-level theorems C11_* (coq/Props/C11.v; Flocq, all float inputs): f64::clamp lands in [lo,hi], is idempotent, "
+                "fixes in-range values and panics iff not(lo<=hi); for R^n satisfies_bounds(enforce_bounds(s)) holds and enforce_bounds is "
+                "idempotent; rand's random_range(lo..hi) returns a value in the CLOSED interval [lo,hi] for every u64 (hi attainable by "
+                "rounding); SO(2) normalisation lands in [-PI,PI] for every finite input. Where the property fails on the code the failure is "
+                "a proved witness on the float model and a known finding (SO(2) upper bound PI, upper-end sample, infinite-width bounds) or a "
+                "reproduced known finding (SO(3) projection lands max_angle +- ulp). Bit-exact correspondence of enforce / satisfies / "
+                "sample_uniform (scripted generator, incl. all-ones and all-zeros streams) on the lattice (far outside, on the boundary, "
+                "non-canonical, zero quaternion); enforce->satisfies / idempotence / canonical-form oracle on every case.",
+        "design_ref": "DESIGN.md section 7 C11, section 8 rows 8, 9, 11, 12",
+        "note": SPACE_NOTE + " SO(3) enforce/satisfy has no float-level theorem (libm oracle): covered by correspondence + oracle only.",
+        "technique": "Coq proof (exact IEEE-754 theorems via Flocq) + bit-exact float-model correspondence by vm_compute",
+    },
+    "C12": {
+        "category": "proof",
+        "text": "Theorems C12_* (coq/Props/C12.v) on the float model of the constructors, for ALL float arguments: RealVectorStateSpace::new "
+                "returns a space only with the right arity and every lower bound strictly below its upper bound, no NaN (documented errors "
+                "otherwise); SO2StateSpace::new stores a strictly ordered, NaN-free interval inside [-PI,PI]; SO3StateSpace::new stores a "
+                "radius in [0,PI] and rejects negative radii; clamp cannot panic on well-formed bounds; SO2State::new / SE2 yaw land in "
+                "[-PI,PI] for every finite input (Flocq proof through the exact fmod model). C12_refuted_huge_quaternion: normalise(1e200,0,0,0) "
+                "= Ok(0,0,0,0) (known finding). Bit-exact correspondence over the constructor lattice (all orderings/signs of bound pairs over "
+                "+-PI, beyond, +-inf, NaN, equal; arity combinations; angles tiny..1e300; quaternions zero/tiny/huge) + constructed-space "
+                "usability oracle.",
+        "design_ref": "DESIGN.md section 7 C12, section 8 rows 10, 13",
+        "note": SPACE_NOTE + " Congruence of SO2State::new to the input modulo the REAL 2 pi is a sampled oracle for |v| <= 1e6 and outside the claim beyond.",
+        "technique": "Coq proof (constructor theorems for all float arguments, Flocq) + bit-exact correspondence by vm_compute",
+    },
     "C13": {
         "category": "proof",
         "text": "The float model of a compound space IS the documented law (fold of the component models: weighted l2 for distance and "
